@@ -9,6 +9,7 @@ import (
 )
 
 const lexer_start int = 1
+const lexer_first_final int = 5
 const lexer_error int = 0
 
 const lexer_en_main int = 1
@@ -350,4 +351,28 @@ func (lex *Lexer) isLabelEnd(p int) bool {
 		return false
 	}
 	return true
+}
+
+// broken call-stack helpers: the capacity is tested instead of the length, and
+// top is advanced without a store
+func (lex *Lexer) growCallStack() {
+	if lex.top == cap(lex.stack) {
+		lex.stack = append(lex.stack, 0)
+	}
+}
+
+func (lex *Lexer) call(state int, fnext int) {
+	lex.growCallStack()
+	lex.stack[lex.top] = state
+	lex.top++
+	lex.p++
+	lex.cs = fnext
+}
+
+func (lex *Lexer) skipFrame() {
+	lex.top++
+}
+
+func (lex *Lexer) resetStack() {
+	lex.stack = lex.stack[:0]
 }
